@@ -250,6 +250,63 @@ func runC20(c *Check) {
 			}
 		}
 	}
+	// the carry-over pop is bounded by the same requested size: inside the popping method every
+	// append to a released list is behind the size test against the method's limit parameter,
+	// and the caller passes the requested size for that parameter
+	for _, pn := range pops {
+		callee := CallCommonOf(pn).StaticCallee()
+		if callee == nil || callee.Blocks == nil {
+			continue
+		}
+		pg := BuildECFG(p, callee, ExpandOpts{MaxDepth: 1})
+		c.NoteGraph(pg)
+		var limitParam *ssa.Parameter
+		napp := 0
+		for _, an := range pg.Select(func(n *Node) bool {
+			if CallName(n) != "append" {
+				return false
+			}
+			v, ok := n.In.(ssa.Value)
+			return ok && v.Type().String() == "[][]byte"
+		}) {
+			an := an
+			napp++
+			okGuard := false
+			for _, f := range pg.NecessaryEdges(func(n *Node) bool { return n == an }) {
+				t, pol := normFact(f.Cond, f.Pol)
+				if t.Op != "bin" || len(t.Args) != 2 {
+					continue
+				}
+				fits := (!pol && (t.Name == ">" || t.Name == ">=")) || (pol && (t.Name == "<=" || t.Name == "<"))
+				if !fits || t.Args[0].Op != "bin" || t.Args[0].Name != "+" || !strings.Contains(t.Args[0].String(), "len(") {
+					continue
+				}
+				if lp, ok := t.Args[1].V.(*ssa.Parameter); ok && lp.Parent() == callee {
+					limitParam, okGuard = lp, true
+				}
+			}
+			if okGuard {
+				c.OK("C20-R3", fnShort(callee)+" ⟂ pop-under-size-test", fnName(callee), p.InstrPos(an.In), "a carried-over transaction is released only if the running size plus its length stays within the limit parameter", true)
+			} else {
+				c.Bad("C20-R3", fnShort(callee)+" ⟂ pop-under-size-test", fnName(callee), p.InstrPos(an.In), "a carried-over transaction can be released without the size test against the limit: the batch can exceed the requested size", nil)
+			}
+		}
+		if napp == 0 {
+			c.Unk("C20-R3", fnShort(callee)+" ⟂ pop-under-size-test", fnName(callee), "", "anchor lost: no append to a released list in the popping method")
+		}
+		if limitParam != nil {
+			for i, prm := range callee.Params {
+				if prm == limitParam {
+					a := TermOf(CallCommonOf(pn).Args[i], pn.Ctx)
+					if strings.Contains(a.String(), "MaxBytes") {
+						c.OK("C20-R3", "GetNextBatch ⟂ pop-limit-is-requested-size", fn, p.InstrPos(pn.In), "the pop is limited by the requested size", true)
+					} else {
+						c.Bad("C20-R3", "GetNextBatch ⟂ pop-limit-is-requested-size", fn, p.InstrPos(pn.In), "the limit handed to the carry-over pop is not the requested size: "+trunc(a.String(), 80), nil)
+					}
+				}
+			}
+		}
+	}
 	for _, an := range txApps {
 		e := ArgTerm(an, 1)
 		inOrder := p.DeepContains(e, func(t *Term) bool {
@@ -272,7 +329,7 @@ func runC20(c *Check) {
 	rulePoppedNotDiscarded(c, p, g, fnb)
 	c.MinInstances("C20-R1", 1)
 	c.MinInstances("C20-R2", 1)
-	c.MinInstances("C20-R3", 1)
+	c.MinInstances("C20-R3", 4)
 	c.MinInstances("C20-R4", 4)
 }
 
